@@ -86,7 +86,9 @@ func twoModules(appPath, appGo, libPath, libGo, libDir string, custom bool, work
 			{Dir: "q", Name: "q", Imports: []string{"inner"}, Types: []pipe.Type{{Name: "Mode", Enabled: []string{"perm"}}}},
 			{Dir: "inner", Name: "inner", Types: []pipe.Type{{Name: "X"}}}}}}}
 	_ = libName
-	m.Work = len(work) > 0 && work[0] // a go.work workspace instead of require + replace
+	if len(work) > 0 && work[0] { // a go.work workspace instead of require + replace
+		m.Work = "auto"
+	}
 	steps := map[string]pipe.Step{
 		appPath + "/p File": {Body: fmt.Sprintf(perm, "File"), Use: []string{"strings.Builder", libPath + "/q.Mode"}},
 		appPath + "/p2 Dir": {Body: fmt.Sprintf(perm, "Dir")},
@@ -814,7 +816,7 @@ func (prop) Run(raw json.RawMessage, scratch string) core.Result {
 		}
 	}
 	for _, x := range in.Module.Ext {
-		if in.Module.Work {
+		if in.Module.Work != "" {
 			res.Tags = append(res.Tags, "two-modules:go.work-workspace")
 		} else {
 			res.Tags = append(res.Tags, "two-modules:require+replace")
